@@ -279,6 +279,14 @@ func ttlName(d time.Duration) string {
 	return d.String()
 }
 
+// jumpClock is the wall clock of a process that gets suspended: Now() is the bubble's time plus an offset that only ever
+// jumps forward; timers (After, and the tickers the books create themselves) run on the bubble's time, i.e. they do not
+// fire during a jump and are late by it afterwards — what a monotonic-timer / wall-clock-Now process sees after a resume.
+type jumpClock struct{ offset *time.Duration }
+
+func (c jumpClock) Now() time.Time                         { return time.Now().Add(*c.offset) }
+func (c jumpClock) After(d time.Duration) <-chan time.Time { return time.After(d) }
+
 func run(t *testing.T, tape *simrt.Tape) *common.Outcome {
 	g := simrt.Gen{S: tape.G}
 	o := &common.Outcome{}
@@ -301,9 +309,12 @@ func run(t *testing.T, tape *simrt.Tape) *common.Outcome {
 	var sig strings.Builder
 	mutating := 0
 
+	var offset time.Duration
+	wall := func() time.Time { return time.Now().Add(offset) }
 	res := simrt.Run(t, simrt.Config{MaxSteps: 100000}, tape.S, func() {
 		disk := simdisk.New()
 		opts := pstoreds.DefaultOpts()
+		opts.Clock = jumpClock{&offset}
 		opts.CacheSize = dsCache
 		opts.GCPurgeInterval = time.Minute
 		opts.GCInitialDelay = time.Minute
@@ -322,7 +333,7 @@ func run(t *testing.T, tape *simrt.Tape) *common.Outcome {
 		// books are created at a whole minute (their GC tickers fire on whole minutes); every
 		// operation and observation happens at whole second + 500 ms, so that no GC tick ever
 		// coincides with a harness instant (which would make the order a runtime choice).
-		mem := pstoremem.NewAddrBook(pstoremem.WithMaxAddressesPerPeer(0))
+		mem := pstoremem.NewAddrBook(pstoremem.WithMaxAddressesPerPeer(0), pstoremem.WithClock(jumpClock{&offset}))
 		dsb := openDS()
 		if dsb == nil {
 			mem.Close()
@@ -340,7 +351,7 @@ func run(t *testing.T, tape *simrt.Tape) *common.Outcome {
 		lastOp := "none"
 
 		compare := func(when string) bool {
-			now := time.Now()
+			now := wall()
 			m.expire(now)
 			ok := true
 			for _, b := range books {
@@ -430,7 +441,7 @@ func run(t *testing.T, tape *simrt.Tape) *common.Outcome {
 
 		skipObservation := false
 		for i := 0; i < nOps; i++ {
-			now := time.Now()
+			now := wall()
 			m.expire(now)
 			p := g.Int(nPeers)
 			switch kind := g.Weighted(5, 4, 3, 1, 3, 5, 1); kind {
@@ -539,6 +550,15 @@ func run(t *testing.T, tape *simrt.Tape) *common.Outcome {
 				// advance were followed by the harness's own Addrs() on every peer, no operation of the history could ever be
 				// the first to touch a record after its addresses expired. Half of the advances are therefore not observed.
 				skipObservation = g.Chance(1, 2)
+				// clock jump (free stratum only, 1 advance in 5): the process is suspended for d — the wall clock the books
+				// read is d later, no timer fired meanwhile, the GC tickers are late by d from now on
+				if jump := !aligned && g.Int(5) == 4; jump {
+					o.Logf("#%d t=%v CLOCK JUMP +%v (suspend; observed: %v)", i, simrt.Now(), d, !skipObservation)
+					offset += d
+					o.Fault("clock-jump")
+					lastOp = "advance"
+					break
+				}
 				o.Logf("#%d t=%v advance %v (observed: %v)", i, simrt.Now(), d, !skipObservation)
 				simrt.TimeSleep(d)
 				lastOp = "advance"
@@ -584,7 +604,7 @@ func run(t *testing.T, tape *simrt.Tape) *common.Outcome {
 		// final: far beyond every finite lifetime and several GC rounds — listing must be exact
 		simrt.TimeSleep(4 * time.Hour)
 		lastOp = "final-gc"
-		m.expire(time.Now())
+		m.expire(wall())
 		for _, b := range books {
 			var listed []string
 			for _, id := range b.b.PeersWithAddrs() {
